@@ -1,0 +1,11 @@
+// Copyright Suneido Software Corp. All rights reserved.
+// Governed by the MIT license found in the LICENSE file.
+
+//go:build verif
+
+package db19
+
+// VerifRangeEnd exposes rangeEnd to the external verification harness
+func VerifRangeEnd(key string, n int) string {
+	return rangeEnd(key, n)
+}
